@@ -18,6 +18,12 @@ def load_claims():
         CLAIMED.update(json.load(open(path)))
 
 
+def drivers():
+    import re
+    lf = open(os.path.join(VERIF, "lean", "OFCore", "lakefile.toml")).read()
+    return re.findall(r'name = "(ofdrv_\w+)"', lf)
+
+
 def main():
     load_claims()
     checks = []
@@ -39,7 +45,7 @@ def main():
     na = [{"property_id": pid, "reason": NOT_YET} for pid in ALL if pid not in CLAIMED]
     m = {
         "version": 1,
-        "setup_cmd": "cd /verif/lean/OFCore && lake build",
+        "setup_cmd": "cd /verif/lean/OFCore && lake build " + " ".join(["OFCore"] + [f"OFCore.Props.{c['property_id']}" for c in checks] + drivers()),
         "hooks": {
             "guard": "OPENFISCA_CORE_VERIF",
             "enable": "no hooks are needed: checks import the working tree of /repo in-process (OFV_REPO selects another tree)",
